@@ -131,7 +131,7 @@ ASSUMPTIONS = [
     "mask bits explored by forking; known-finding regions are z3 predicates 'result identical at o and o+d' (origin ignored) per entry point",
 ]
 EXPLORER_OPTS = {"timeout_ms": 8000, "max_paths": 20000, "max_candidates": 6}
-BUDGET_S = {"quick": 600, "thorough": 2300}
+BUDGET_S = {"quick": 600, "thorough": 3000}
 
 # dyadic pixel scales (float arithmetic on them is exact); several are anisotropic on purpose
 SCALES = [(0.5, 2.0), (1.0, 1.0), (2.0, 0.25), (0.25, 0.5), (3.0, 1.0)]
@@ -279,6 +279,22 @@ MASKS = {
     "disc7": _mask_from_rows(["#######", "##...##", "#.....#", "#.....#", "#.....#", "##...##", "#######"]),
     "corner6": _mask_from_rows(["######", "######", "######", "###..#", "###...", "####.."]),
 }
+
+
+QUICK_NAMES = sorted(MASKS)          # the quick tier (and the round-1..6 thorough cases) iterate over these twelve only
+
+MASKS.update({           # thorough-only 'hard' masks: larger, annulus, checkerboard, diagonal, boundary frame, off-centre in a big array
+    "annulus9": _mask_from_rows(["#########", "###...###", "##.....##", "#..###..#", "#..###..#", "#..###..#", "##.....##", "###...###", "#########"]),
+    "blob8x10": _mask_from_rows(["##########", "##########", "######..##", "#####...##", "#####....#", "######..##", "##########", "##########"]),
+    "full6x6": _mask_from_rows(["......"] * 6),
+    "diag7": _mask_from_rows([".######", "#.#####", "##.####", "###.###", "####.##", "#####.#", "######."]),
+    "checker6": _mask_from_rows([".#.#.#", "#.#.#.", ".#.#.#", "#.#.#.", ".#.#.#", "#.#.#."]),
+    "frame8": _mask_from_rows(["........", ".######.", ".######.", ".######.", ".######.", ".######.", ".######.", "........"]),
+    "full1x9": _mask_from_rows(["........."]),
+    "column9x2": _mask_from_rows(["#.", "#.", "#.", "#.", "#.", "#.", "#.", "#.", "#."]),
+})
+BIG_NAMES = ["annulus9", "blob8x10", "full6x6", "diag7", "checker6", "frame8", "full1x9", "column9x2"]
+SCALES_MORE = [(0.125, 4.0), (8.0, 8.0), (1.0, 0.0625), (1.5, 0.75), (1024.0, 0.5)]       # dyadic; tiny / huge / extreme aspect ratios
 
 
 # ------------------------------------------------------------------------------------------------ mask-level geometry
@@ -1087,7 +1103,7 @@ BODIES = {"case_geometry": body_geometry, "case_geometry_named": body_geometry, 
 def cases(tier):
     quick = tier == "quick"
     out = []
-    names = sorted(MASKS)
+    names = QUICK_NAMES
     for n, name in enumerate(names):
         out.append(("case_geometry_named", {"name": name, "scales": SCALES[n % len(SCALES)]}))
         if not quick:
@@ -1143,6 +1159,51 @@ def cases(tier):
         cells = H * W
         out.append(("case_geometry", {"H": H, "W": W, "scales": SCALES[n % len(SCALES)]},
                     {"split": 0 if cells < 6 else (2 if cells < 9 else (5 if cells <= 10 else 7))}))
+    if not quick:
+        out += _deeper_cases()
+    return out
+
+
+def _deeper_cases():
+    """thorough only: the next sizes up under the same obligations"""
+    out = []
+    # (1) every named mask under every scale pair (incl. tiny / huge / extreme aspect ratios), larger kernels and sub size 4
+    for n, name in enumerate(QUICK_NAMES + BIG_NAMES):
+        for k, sc in enumerate(SCALES + SCALES_MORE):
+            if name in QUICK_NAMES and (sc == SCALES[QUICK_NAMES.index(name) % len(SCALES)] or sc == SCALES[(QUICK_NAMES.index(name) + 2) % len(SCALES)]):
+                continue          # already run above
+            kern, sub, pad = [((3, 3), 2, (2, 1)), ((5, 5), 4, (3, 3)), ((5, 3), 3, (0, 2)), ((3, 7), 2, (4, 0))][(n + k) % 4]
+            out.append(("case_geometry_named", {"name": name, "scales": list(sc), "kernel": list(kern), "sub": sub, "pad": list(pad)}))
+    # (2) all masks of the next shapes up: 3x4 and 4x3 (4095 masks each)
+    out.append(("case_geometry", {"H": 3, "W": 4, "scales": [0.5, 2.0]}, {"split": 8}))
+    out.append(("case_geometry", {"H": 4, "W": 3, "scales": [0.25, 0.5], "kernel": [3, 5], "sub": 3, "pad": [1, 4]}, {"split": 8}))
+    # (3) datasets, mappers, shared option objects and overlay meshes on all 3x3 masks / on the big masks
+    out.append(("case_dataset", {"H": 3, "W": 3, "scales": [0.5, 2.0]}, {"split": 6}))
+    out.append(("case_dataset", {"H": 2, "W": 4, "scales": [3.0, 1.0], "sub": 3}, {"split": 4}))
+    for n, name in enumerate(BIG_NAMES):
+        if MASKS[name].shape[0] > 1:      # a one-row 2D data set makes noise_map_with_signal_to_noise_limit_from build an Array1D on a 2D mask
+            out.append(("case_dataset", {"name": name, "scales": (SCALES + SCALES_MORE)[(n + 3) % 10], "sub": 2 + n % 3}))     # (ValueError at every origin; not a C12 matter)
+        out.append(("case_shared", {"name": name, "scales": (SCALES + SCALES_MORE)[(n + 6) % 10], "sub": 2 + n % 2}))
+        out.append(("case_mapper", {"name": name, "scales": (SCALES + SCALES_MORE)[n % 10], "kind": "rectangular", "sub": [2, 1, "ones", "mixed"][n % 4],
+                                    "mesh_shape": [[3, 3], [5, 4], [3, 6], [7, 7]][n % 4]}))
+        out.append(("case_mapper", {"name": name, "scales": SCALES[n % 5], "kind": "delaunay" if n % 3 else "delaunay3", "sub": [1, 2, "mixed"][n % 3]}))
+        out.append(("case_overlay", {"name": name, "scales": (SCALES + SCALES_MORE)[(n + 1) % 10], "shape": [[4, 4], [2, 5], [5, 1], [3, 3]][n % 4], "bound": None}))
+    out.append(("case_mapper", {"H": 3, "W": 3, "scales": [0.5, 2.0], "kind": "rectangular", "mesh_shape": [4, 5], "sub": "mixed"}, {"split": 5}))
+    out.append(("case_mapper", {"H": 3, "W": 3, "scales": [1.0, 1.0], "kind": "delaunay", "sub": 2}, {"split": 5}))
+    out.append(("case_shared", {"H": 3, "W": 3, "scales": [2.0, 0.25], "sub": 3}, {"split": 6}))
+    out.append(("case_shared", {"H": 3, "W": 2, "scales": [0.25, 0.5]}, {"split": 2}))
+    out.append(("case_overlay", {"H": 3, "W": 3, "scales": [3.0, 1.0], "shape": [2, 2], "bound": None}, {"split": 4}))
+    out.append(("case_overlay", {"H": 2, "W": 4, "scales": [0.5, 2.0], "shape": [2, 3], "bound": 0.75}, {"split": 4}))
+    # (4) translated points / radial projections: more shapes, scales (tiny, huge, extreme aspect), more points, more angles
+    for n, sc in enumerate(SCALES + SCALES_MORE):
+        H, W = [(7, 11), (1, 1), (2, 13), (10, 10), (9, 4)][n % 5]
+        out.append(("case_points", {"H": H, "W": W, "scales": list(sc), "N": 3, "cls": False}))
+    for (H, W, sc) in [(4, 4, (0.125, 4.0)), (5, 3, (8.0, 8.0)), (1, 6, (1.5, 0.75)), (3, 5, (3.0, 1.0))]:
+        out.append(("case_points", {"H": H, "W": W, "scales": list(sc), "N": 1, "cls": True}))
+    out.append(("case_points", {"H": 2, "W": 2, "scales": [0.5, 2.0], "N": 2, "cls": True}))
+    for n, ang in enumerate([15.0, 60.0, 135.0, 180.0, 225.0, 270.0, 300.0, 359.0, -45.0, 720.0]):
+        H, W = [(7, 7), (3, 9), (10, 4), (1, 5), (6, 6)][n % 5]
+        out.append(("case_radial", {"H": H, "W": W, "scales": list((SCALES + SCALES_MORE)[n % 9]), "angle": ang}))
     return out
 
 
